@@ -19,6 +19,10 @@ Every case is evaluated the same way (`evaluate`):
      earlier call) is compared bit-exactly, and every result must equal the reference result of that operation.
 Streams B (absolute scale / far offset, with the pair relation to the mesh at the origin) and E (sparse-but-small ids,
 single elements, internal voids, several components of different kinds) are generator dimensions of the same flow.
+Stream G / M (SIZE BOUNDARIES, `evaluate_large`, after the main flow): structured meshes with up to ~2e5 elements built with
+numpy - more than 2^16 faces of one shape and more than 2^16 nodes in every quick run, facet counts exactly at / next to
+2^12 .. 2^17 in the thorough tier, ids <= 0 - judged with numpy against the boundary derived from the cell occupancy, the
+.obj text through an independent parser; oracle only (model side: C10_obj_blockwise).
 """
 import os
 from fractions import Fraction as F
@@ -34,7 +38,8 @@ LEAN_MODULES = ['Femio.Props.C10']
 THEOREMS = ['C10_element_closed', 'C10_element_outward', 'C10_boundary_spec', 'C10_fistr_scan_spec', 'C10_closed',
             'C10_closed_manifold', 'C10_volume', 'C10_same_face_set', 'C10_fistr_same_keys', 'C10_fistr_numbers', 'C10_obj_roundtrip',
             'C10_obj_lex_print', 'C10_obj_roundtrip_chars', 'C10_flux_similarity', 'C10_volume_similarity',
-            'C10_enclosed_volume_translate']
+            'C10_enclosed_volume_translate', 'C10_obj_blockwise', 'C10_obj_roundtrip_blockwise',
+            'C10_obj_blockwise_joined_counterexample']
 PARTIAL = [
     'C10_element_outward / C10_volume: quadrilateral faces are measured by the centroid-fan flux (exact for planar '
     'faces; for warped faces the statement is about that discretisation, which is also what femio\'s "centroid" '
@@ -49,6 +54,11 @@ PARTIAL = [
     'code has this shape (no state kept on the object, no shared array modified) is checked by the oracle on shuffled '
     'histories with snapshots, not proved (the lru_cache of extract_surface after an in-place modification is C19 / F11)',
     'STL export is not runnable in this sandbox (numpy-stl missing) and is not covered',
+    'size-boundary stream (meshes with up to ~2e5 elements): oracle on the real code only - the Lean model is not run on them; '
+    'the model side is C10_obj_blockwise / C10_obj_roundtrip_blockwise (the text of a writer that emits its lines block by block, '
+    'each line newline-terminated, does not depend on the cut into blocks, so the round trip holds at every size) and the '
+    '`decide`d counterexample for the writer that joins the rows of a block and terminates only the last block; that the '
+    'code is such a writer is what the stream tests',
 ]
 RULE = ('seeded conforming solid meshes from harness/meshgen.gen_geometric: kind in tet / tet2 / hex / mixed '
         '(hex+prism+pyr) / pyr / prism, 1..3 cells per axis (thorough: ..4), random rational affine map, optional '
@@ -63,7 +73,17 @@ RULE = ('seeded conforming solid meshes from harness/meshgen.gen_geometric: kind
         'public state); every case: all operations in shuffled order with repeats on one live object vs each operation on '
         'its own fresh object, snapshots of every live object around every call; a case is non-trivial when the mesh has at '
         'least one interior face or is a single element; distinct = distinct (connectivity, ids, storage order, '
-        'coordinates, modification, history)')
+        'coordinates, modification, history); SIZE-BOUNDARY stream (after the main flow): structured bricks of cells built with '
+        'numpy, every column of cells cut by one pattern (hex / 2 prisms / 6 pyramids / 6 Kuhn tets / tet2), optional periodic '
+        'holes and internal voids, ids and storage orders = arithmetic permutations (dense, sparse, ~2e9, descending, ids <= 0 '
+        'with a node and an element numbered 0); quick: one plate of >= 182 x 182 cells per run (> 2^16 nodes, > 2^16 '
+        'quadrilaterals or > 2^16 triangles + quadrilaterals) and four small ones (two of them with ids <= 0: a tet mesh and a '
+        'mixed one); thorough: bricks with EXACTLY 2^k facets '
+        'of one shape and the nearest counts below / above for k = 12..17 over all patterns, > 2^16 nodes with few faces, holes, '
+        'voids, three-type mixes, 40 small ones; expectation = the faces of elements lying in a cell side without a cell '
+        'behind it (from the occupancy, no key counting), compared with extract_surface (faces + orientation, positions, edge '
+        'balance, enclosed volume), to_surface with / without unused nodes, extract_surface_fistr, the .obj text through an '
+        'independent parser, its read back, the file rewritten with overwrite=True, and the caller\'s arrays afterwards')
 ASSUMPTIONS = [
     'input meshes are conforming (every shared face is used by exactly two elements, as mirror images): decided per '
     'input by the model (`conformingB`, `mirrorConformingB`), meshes failing it go to a separate labelled stream',
@@ -84,6 +104,11 @@ ASSUMPTIONS = [
     'rejects formulas that cancel in absolute coordinates (error eps * P^3); everything else (face sets, closedness, '
     'orientation from the node order, enclosed volume = sum of exact element volumes, coordinates of the surface object, '
     'OBJ vertices read back) is exact at every scale',
+    'size-boundary stream: coordinates are dyadic rationals (grid indices <= 3000 times an affine map with entries k/8, '
+    'translations k/2), so the float64 flux sums of the oracle are exact up to summation order; enclosed volume vs cells x det A '
+    'and vs calculate_element_volumes(mode="linear").sum(): 1e-9 x (sum of |face flux terms| + volume); "arbitrary node ids" '
+    'is read as including zero and negative integers (node / element ids <= 0 occur in this stream only: the Lean protocol '
+    'carries ids as naturals)',
 ]
 TRUSTED = ['C10: decimal text <-> float64 conversion of pandas / numpy (coordinates enter the OBJ model as opaque tokens)',
            'C10: harness/meshgen.py face tables are used by the oracle as the independent definition of "face of an element"']
@@ -771,7 +796,13 @@ def oracle(ctx, m, obs, case):
             obs['keep_node_pos'] != [[float(v) for v in X[i]] for i in ids]:
         ctx.fail('same-faces:to_surface-keep-nodes', 'to_surface(remove_unnecessary_nodes=False) is not the surface of to_surface() '
                  'over all the nodes of the mesh', case, {'nodes': obs['keep_nodes'][:10], 'blocks': str(obs['keep_blocks'])[:300]})
-    objf = [[int(x) for x in ln.split()[1:]] for ln in obs['obj_text'].splitlines() if ln.startswith('f ')]
+    objv, objf, bad = parse_obj(obs['obj_text'])
+    if bad:
+        ctx.fail('same-faces:obj:malformed-record', 'the .obj file contains a line that is neither a `v x y z` nor a `f i j k [l]` '
+                 'record', case, {'lines': bad, 'n_v': len(objv), 'n_f': len(objf)})
+    if objv != [[float(v) for v in p] for _, p in m['nodes']]:
+        ctx.fail('obj:vertices-changed', 'the v records of the .obj file (independent parser) are not the nodes in storage order',
+                 case, {'n': (len(objv), len(ids))})
     if any(k < 1 or k > len(ids) for f in objf for k in f):
         ctx.fail('same-faces:obj', 'an f line of the .obj file refers to a vertex number outside 1..n', case, {'f_lines': objf[:5]})
     elif sorted(U.cyc_canon([ids[k - 1] for k in f]) for f in objf) != sorted(U.cyc_canon(f) for f in surf):
@@ -889,6 +920,542 @@ def correspond(ctx, m, obs, case):
         ctx.disagree('flux of the real surface (exact) vs model surface flux', case, str(enclosed), str(sflux))
     flags['model_flux'] = sflux
     return flags
+
+
+# ------------------------------------------------------------------ stream G / M: SIZE BOUNDARIES (large-but-cheap meshes)
+#
+# The meshes of the main flow have at most a few hundred faces (exact rational arithmetic, the Lean model in the loop).
+# Anything in the implementation that depends on a COUNT - rows converted / written block by block, index arithmetic in
+# a narrower integer type, a buffer of fixed size - is invisible there.  This stream builds structured meshes with tens
+# of thousands of elements directly with numpy (a brick of nx x ny x nz cells; every (x, y) column of cells is cut into
+# elements by one pattern: 1 hex, 2 prisms, 6 pyramids around a centre node, 6 Kuhn tets, or those tets promoted to
+# tet2; optional periodic holes / internal voids; node and element ids and both storage orders are ARITHMETIC
+# permutations k -> (a k + b) mod P, so a case is fully described by a few integers and rebuilt bit-identically by
+# `replay`), and judges every operation of the property with numpy against the boundary computed INDEPENDENTLY FROM
+# THE CELL OCCUPANCY: a face of an element that lies in a side of its cell is a boundary face iff there is no cell on
+# the other side (no sorting / counting of face keys as in femio's algorithm; the face tables are meshgen's).
+# Coordinates are dyadic rationals with few bits, so the float64 arithmetic of this oracle is exact.
+
+CELL_CORNERS = [(0, 0, 0), (1, 0, 0), (1, 1, 0), (0, 1, 0), (0, 0, 1), (1, 0, 1), (1, 1, 1), (0, 1, 1)]
+FLIP = {'tet': [0, 2, 1, 3], 'prism': [0, 2, 1, 3, 5, 4], 'pyr': [0, 3, 2, 1, 4], 'hex': [0, 3, 2, 1, 4, 7, 6, 5]}
+N_LOCAL = 6           # slots per cell in the global element numbering (the ids of the types of a mixed mesh interleave)
+SHAPES = {3: 'tri', 4: 'quad'}
+
+
+def cell_pattern(pattern):
+    """[(type, local corners, [(face as local corners, side)])] of one cell; local corner 8 = centre of the cell;
+    side = (axis, 0 | 1) when all nodes of the face lie in that side of the cell, None for a face inside the cell (shared
+    by two elements of the same cell).  Elements are made positive on the unit cell (exactly)."""
+    P = [tuple(F(v) for v in c) for c in CELL_CORNERS] + [(F(1, 2), F(1, 2), F(1, 2))]
+    raw = {'hex': [('hex', list(range(8)))], 'tet': [('tet', list(k)) for k in G.KUHN],
+           'prism': [('prism', list(k)) for k in G.PRISMS], 'pyr': [('pyr', list(b) + [8]) for b in G.PYR_BASES]}[pattern]
+    out = []
+    for t, c in raw:
+        if G.signed(t, [P[i] for i in c]) < 0:
+            c = [c[i] for i in FLIP[t]]
+        assert G.signed(t, [P[i] for i in c]) > 0
+        faces = []
+        for f in G.FACES[t]:
+            loc = [c[i] for i in f]
+            side = None
+            if 8 not in loc:
+                for ax in range(3):
+                    vals = {CELL_CORNERS[i][ax] for i in loc}
+                    if len(vals) == 1:
+                        side = (ax, vals.pop())
+            faces.append((loc, side))
+        out.append((t, c, faces))
+    return out
+
+
+def coprime(a, n):
+    a = max(1, int(a) % max(n, 1))
+    while np.gcd(a, n) != 1:
+        a += 1
+    return int(a)
+
+
+def aperm(k, a, b, P):
+    """arithmetic permutation k -> (a k + b) mod P of 0 .. P-1 (gcd(a, P) = 1), int64-safe"""
+    assert np.gcd(a, P) == 1 and 0 < a < 2 ** 21 and 0 < P < 2 ** 41
+    return (np.asarray(k, dtype=np.int64) * a + b) % P
+
+
+def fit_cells(pattern, target, nz=1):
+    """(nx, ny) of the full nx x ny x nz brick whose surface has EXACTLY `target` facets of its main shape (hex / pyr:
+    quadrilaterals 2 (nx ny + nz (nx + ny)); tet / tet2: twice as many triangles; prism: 4 nx ny triangles for nz = 1 ...),
+    the most nearly square solution; None when no brick has exactly that many"""
+    best = None
+    for nx in range(1, 1500):
+        if pattern == 'prism':
+            num, den = target, 4 * nx                   # 4 nx ny (two top + two bottom triangles per column) = target
+        else:
+            q = target // (2 if pattern in ('tet', 'tet2') else 1)
+            if pattern in ('tet', 'tet2') and target % 2:
+                return None
+            num, den = q - 2 * nz * nx, 2 * (nx + nz)   # 2 (nx ny + nz (nx + ny)) = q
+        if num > 0 and num % den == 0 and num // den >= nx:
+            best = (nx, num // den)
+    return best
+
+
+def large_spec(rnd, patterns, cells, holes=0, ids=None):
+    """spec of a large mesh: everything else is derived arithmetically (see build_large)"""
+    nx, ny, nz = cells
+    style = ids or rnd.choice(['dense-asc', 'dense-shuf', 'sparse-shuf', 'sparse-shuf', 'offset-shuf', 'sparse-desc', 'zeroneg-shuf'])
+    spec = {'patterns': list(patterns), 'cells': [nx, ny, nz], 'holes': holes, 'ids': style,
+            'mix': [rnd.randint(1, 5), rnd.randint(1, 5)],
+            'r': [rnd.randint(2, 10 ** 6) for _ in range(8)],
+            'A': rnd.choice([[[.5, 0, 0], [0, .25, 0], [0, 0, .125]], [[1, .25, 0], [0, 1, 0], [.5, 0, 2]],
+                             [[0, -.5, 0], [.5, 0, 0], [.125, 0, .25]], [[.25, .125, 0], [-.125, .25, 0], [0, .5, 1]]]),
+            't': [rnd.choice([0, -3, 20, 1024.5]) for _ in range(3)]}
+    return spec
+
+
+def build_large(spec):
+    """the numpy mesh of a spec: node ids / coordinates in storage order, blocks {type: (element ids, connectivity)} in
+    block storage order, the expected oriented boundary faces (rows of node ids) per facet shape, the exact volume"""
+    nx, ny, nz = spec['cells']
+    pats, r, style = spec['patterns'], spec['r'], spec['ids']
+    A, t0 = np.array(spec['A'], dtype=float), np.array(spec['t'], dtype=float)
+    assert np.linalg.det(A) > 0
+    gx, gy, gz = nx + 1, ny + 1, nz + 1
+    n_grid = gx * gy * gz
+    occ = np.ones((nx, ny, nz), dtype=bool)
+    X, Y, Z = np.meshgrid(np.arange(nx), np.arange(ny), np.arange(nz), indexing='ij')
+    if spec.get('holes'):
+        p = spec['holes']
+        occ &= ~((X % p == p - 1) & (Y % p == p - 1) & ((Z == 1) | (nz < 3)))
+    # pattern of a column: constant along z (a prism column has triangles in its top / bottom sides, the others whole
+    # quadrilaterals; all patterns but tet have whole quadrilaterals in the x / y sides) => conforming
+    pat_of = (X * spec['mix'][0] + Y * spec['mix'][1]) % len(pats)
+
+    def gidx(x, y, z):
+        return x + gx * (y + gy * z)
+    pad = np.zeros((nx + 2, ny + 2, nz + 2), dtype=bool)
+    pad[1:-1, 1:-1, 1:-1] = occ
+    cell_no = (X * ny + Y) * nz + Z                              # running number of a cell
+    n_centre = 0
+    conn, ordinal, want, vol_cells = {}, {}, {3: [], 4: []}, int(occ.sum())
+    for ip, pattern in enumerate(pats):
+        sel = occ & (pat_of == ip)
+        x, y, z = X[sel], Y[sel], Z[sel]
+        if not len(x):
+            continue
+        base = 'tet' if pattern == 'tet2' else pattern
+        corners = np.stack([gidx(x + dx, y + dy, z + dz) for dx, dy, dz in CELL_CORNERS], axis=1)
+        if base == 'pyr':
+            centre = n_grid + n_centre + np.arange(len(x))
+            n_centre += len(x)
+            corners = np.concatenate([corners, centre[:, None]], axis=1)
+        for j, (t, c, faces) in enumerate(cell_pattern(base)):
+            conn.setdefault(t, []).append(corners[:, c])
+            ordinal.setdefault(t, []).append(cell_no[sel] * N_LOCAL + j)
+            for loc, side in faces:
+                if side is None:
+                    continue
+                d = [0, 0, 0]
+                d[side[0]] = 1 if side[1] else -1
+                free = ~pad[x + 1 + d[0], y + 1 + d[1], z + 1 + d[2]]
+                want[len(loc)].append(corners[free][:, loc])
+    # coordinates of the grid nodes and of the cell centres (pyramid apexes), exact dyadic numbers
+    K = np.arange(n_grid)
+    grid = np.stack([K % gx, (K // gx) % gy, K // (gx * gy)], axis=1).astype(float)
+    pts = [grid]
+    for ip, pattern in enumerate(pats):
+        if pattern == 'pyr':
+            sel = occ & (pat_of == ip)
+            pts.append(np.stack([X[sel], Y[sel], Z[sel]], axis=1) + .5)
+    pts = np.concatenate(pts) @ A.T + t0
+    conn = {t: np.concatenate(v) for t, v in conn.items()}
+    ordinal = {t: np.concatenate(v) for t, v in ordinal.items()}
+    want = {k: (np.concatenate(v) if v else np.zeros((0, k), dtype=np.int64)) for k, v in want.items()}
+    if 'tet2' in pats:
+        # mid-edge nodes, shared per edge (FrontISTR order of the edges)
+        c = conn.pop('tet')
+        lo = np.stack([np.minimum(c[:, a], c[:, b]) for a, b in G.TET2_EDGES], axis=1)
+        hi = np.stack([np.maximum(c[:, a], c[:, b]) for a, b in G.TET2_EDGES], axis=1)
+        ek, inv = np.unique(lo.ravel() * len(pts) + hi.ravel(), return_inverse=True)
+        mid = (pts[ek // len(pts)] + pts[ek % len(pts)]) / 2
+        conn['tet2'] = np.concatenate([c, (len(pts) + inv).reshape(-1, 6)], axis=1)
+        ordinal['tet2'] = ordinal.pop('tet')
+        pts = np.concatenate([pts, mid])
+    # nodes no element refers to stay in the mesh as unreferenced nodes only when holes touch (never for isolated holes)
+    n = len(pts)
+    if style.startswith('dense'):
+        P, off = n, 1
+    elif style.startswith('offset'):
+        P, off = n + r[0] % 1000, 2 * 10 ** 9 - 4 * n
+    elif style.startswith('zeroneg'):
+        P, off = 2 * n + r[0] % n, None                              # ids -P/2 .. P/2: negative, ZERO (node 0) and positive
+    else:
+        P, off = 3 * n + r[0] % n, 1 + r[1] % 50
+    a = 1 if style == 'dense-asc' else coprime(r[2], P)
+    if off is None:
+        node_id = aperm(np.arange(n), a, P // 2, P) - P // 2
+    else:
+        node_id = off + aperm(np.arange(n), a, r[3] % P, P)       # id of node k (grid numbering)
+    if style.endswith('asc') or style.endswith('desc'):
+        store = np.argsort(node_id)
+        if style.endswith('desc'):
+            store = store[::-1]
+    else:
+        store = aperm(np.arange(n), coprime(r[4], n), r[5] % n, n)   # storage position s holds node store[s]
+    out = {'node_ids': node_id[store].copy(), 'xyz': pts[store].copy(), 'blocks': {}, 'n_cells': vol_cells,
+           'volume': vol_cells * float(np.linalg.det(A)), 'want': {k: node_id[v] for k, v in want.items()}}
+    n_slot = nx * ny * nz * N_LOCAL
+    Pe = n_slot if style.startswith('dense') else 2 * n_slot + r[6] % 97
+    ae = 1 if style == 'dense-asc' else coprime(r[6], Pe)
+    for t in G.ELEMENT_TYPES:
+        if t not in conn:
+            continue
+        if style.startswith('zeroneg'):
+            eid = aperm(ordinal[t], ae, Pe // 2, Pe) - Pe // 2      # element ids of both signs, 0 for the first slot
+        else:
+            eid = 1 + aperm(ordinal[t], ae, r[7] % Pe, Pe)
+        m = len(eid)
+        if style.endswith('asc'):
+            es = np.argsort(eid)
+        elif style.endswith('desc'):
+            es = np.argsort(eid)[::-1]
+        else:
+            es = aperm(np.arange(m), coprime(r[5], m), r[4] % m, m)
+        out['blocks'][t] = (eid[es].copy(), node_id[conn[t]][es].copy())
+    return out
+
+
+def canon_rows(a):
+    """every row rotated so that its smallest entry comes first (the cyclic order = orientation is kept), rows sorted"""
+    a = np.asarray(a, dtype=np.int64)
+    if a.ndim != 2 or not len(a):
+        return a.reshape(0, 0)
+    k = a.argmin(axis=1)
+    r = np.take_along_axis(a, (k[:, None] + np.arange(a.shape[1])[None, :]) % a.shape[1], axis=1)
+    return r[np.lexsort(r.T[::-1])]
+
+
+def rows_diff(got, want):
+    """None when the two canonical row sets are equal, otherwise a small description"""
+    if got.shape == want.shape and np.array_equal(got, want):
+        return None
+    g, w = {tuple(x) for x in got.tolist()}, {tuple(x) for x in want.tolist()}
+    return {'n_faces': len(got), 'n_expected': len(want), 'missing': sorted(w - g)[:3], 'not-boundary-faces': sorted(g - w)[:3],
+            'n_missing': len(w - g), 'n_extra': len(g - w)}
+
+
+def parts_np(s):
+    """{3: tri rows, 4: quad rows} from extract_surface()[0] / [1] (an array for one facet shape, a dict for several)"""
+    out = {3: np.zeros((0, 3), dtype=np.int64), 4: np.zeros((0, 4), dtype=np.int64)}
+    if isinstance(s, dict):
+        extra = [k for k in s if k not in ('tri', 'quad') and len(s[k])]
+        if extra:
+            raise ValueError('unexpected facet shapes ' + repr(extra))
+        for k, name in SHAPES.items():
+            if name in s and len(s[name]):
+                out[k] = np.asarray(s[name])
+    else:
+        a = np.asarray(s)
+        out[a.shape[1]] = a
+    return out
+
+
+def parse_obj(text):
+    """independent reader of the part of the OBJ format the export uses: one record per line, `v x y z` or
+    `f i j k [l]` (1-based vertex numbers); -> (vertices, faces, [(line number, line, problem)])"""
+    vs, fs, bad = [], [], []
+    for no, line in enumerate(text.split('\n'), 1):
+        t = line.split()
+        if not t:
+            continue
+        try:
+            if t[0] == 'v' and len(t) == 4:
+                vs.append([float(x) for x in t[1:]])
+            elif t[0] == 'f' and len(t) in (4, 5):
+                fs.append([int(x) for x in t[1:]])
+            else:
+                raise ValueError('neither a `v x y z` nor a `f i j k [l]` record')
+        except ValueError as e:
+            if len(bad) < 5:
+                bad.append((no, line[:100], str(e)))
+    return vs, fs, bad
+
+
+def flux_np(p):
+    """sum over the faces p (n, k, 3) of the flux of x/3 (triangles: det / 6, quadrilaterals: centroid fan) and the sum
+    of the absolute values of the terms (the scale of the rounding error)"""
+    if not len(p):
+        return 0.0, 0.0
+    def det(a, b, c):
+        return np.einsum('ij,ij->i', a, np.cross(b, c))
+    if p.shape[1] == 3:
+        d = det(p[:, 0], p[:, 1], p[:, 2]) / 6
+        return float(d.sum()), float(np.abs(d).sum())
+    g = p.mean(axis=1)
+    d = sum(det(g, p[:, i - 1], p[:, i]) for i in range(p.shape[1])) / 6
+    return float(d.sum()), float(np.abs(d).sum())
+
+
+def large_schedule(ctx):
+    """quick: ONE mesh per run whose surface has more than 2^16 facets of one shape and which has more than 2^16 nodes (plus four
+    small ones of the same construction: every pattern / mix, holes, ids <= 0); thorough: bricks whose facet count of one shape is EXACTLY 2^k and the nearest counts below / above it for
+    k = 12 .. 17, over all patterns, plus node counts above 2^16 with few faces, holes, internal voids, three-type mixes"""
+    rnd = ctx.rng
+    d = [rnd.randint(0, 5), rnd.randint(0, 5)]
+    menu = [(['hex'], (182 + d[0], 182 + d[1], 1)), (['prism'], (128 + d[0], 129 + d[1], 1)),
+            (['hex', 'prism'], (182 + d[0], 183 + d[1], 1)), (['tet'], (129 + d[0], 129 + d[1], 1))]
+    def medium():
+        # a few hundred to a few thousand faces: every pattern and mix, holes / internal voids, every id style
+        pats = rnd.choice([['hex'], ['tet'], ['tet2'], ['pyr'], ['prism'], ['hex', 'prism'], ['hex', 'pyr'], ['pyr', 'prism'],
+                           ['hex', 'pyr', 'prism']])
+        cells = (rnd.randint(4, 18), rnd.randint(4, 18), rnd.randint(1, 4))
+        return large_spec(rnd, pats, cells, holes=rnd.choice([0, 0, 2, 3, 4]))
+    if ctx.quick:
+        # both plates have more than 2^16 NODES as well; one has more than 2^16 quadrilaterals (single array), the other more
+        # than 2^16 triangles next to its quadrilaterals (dict of arrays)
+        pats, cells = rnd.choice(menu[::2])
+        # ids <= 0 in every run on a tet mesh (the only kind with the (element, face number) list) and on a two-shape surface
+        return [large_spec(rnd, pats, cells), medium(), medium(),
+                large_spec(rnd, ['tet'], (rnd.randint(3, 6), rnd.randint(3, 6), rnd.randint(1, 3)), ids='zeroneg-shuf'),
+                large_spec(rnd, rnd.choice([['hex', 'prism'], ['pyr', 'prism'], ['hex', 'pyr', 'prism']]),
+                           (rnd.randint(4, 9), rnd.randint(4, 9), rnd.randint(1, 3)), holes=rnd.choice([0, 3]), ids='zeroneg-shuf')]
+    out = [large_spec(rnd, pats, cells) for pats, cells in menu] + [medium() for _ in range(40)]
+    step = {'hex': 2, 'pyr': 2, 'tet': 4, 'tet2': 4, 'prism': 4}
+    for k in range(12, 18):
+        for pattern in (['hex', 'prism', 'tet'] + (['pyr'] if k in (12, 16) else []) + (['tet2'] if k in (12, 14) else [])):
+            if k == 17 and pattern == 'tet':
+                continue
+            for target in (2 ** k - step[pattern], 2 ** k, 2 ** k + step[pattern]):
+                nz = 1
+                fit = fit_cells(pattern, target, nz)
+                if fit is None and pattern != 'prism':
+                    nz = 2
+                    fit = fit_cells(pattern, target, nz)
+                if fit is None:
+                    ctx.count(f'large:no brick of {pattern} has exactly {target} facets (skipped)')
+                    continue
+                out.append(large_spec(rnd, [pattern], (fit[0], fit[1], nz)))
+    out += [large_spec(rnd, ['hex'], (41, 40, 41)),                               # 72324 nodes, 9922 faces
+            large_spec(rnd, ['hex'], (190, 187, 1), holes=7),                     # plate with through holes
+            large_spec(rnd, ['hex', 'prism'], (150, 151, 3), holes=5),            # internal voids (hex and prism walls)
+            large_spec(rnd, ['hex', 'pyr', 'prism'], (200, 170, 1)),
+            large_spec(rnd, ['tet'], (100, 90, 3), holes=4)]
+    return out
+
+
+def evaluate_large(ctx, spec):
+    """all operations of the property on ONE live object of a large mesh, judged against the occupancy boundary"""
+    import femio
+    from femio import FEMData, FEMAttribute, FEMElementalAttribute
+    L = build_large(spec)
+    ids, xyz, want = L['node_ids'], L['xyz'], {k: canon_rows(v) for k, v in L['want'].items()}
+    n = len(ids)
+    n_el = sum(len(e) for e, _ in L['blocks'].values())
+    desc = {'n_nodes': n, 'n_elems': n_el, 'types': list(L['blocks']), 'surface_tri': len(want[3]), 'surface_quad': len(want[4]),
+            'cells': spec['cells'], 'patterns': spec['patterns'], 'holes': spec.get('holes', 0), 'ids': spec['ids']}
+    case = {'large': spec, 'describe': desc,
+            'how_to_build': 'harness/c10.py: build_large(spec) (brick of cells cut by patterns; ids and storage orders are the '
+                            'arithmetic permutations (a k + b) mod P derived from spec.r); replay rebuilds it'}
+    key = ('large', repr(sorted(spec.items())))
+    ctx.case(key, sample={'stream': 'size-boundary', **desc}, nontrivial=True)
+    ctx.count('large:patterns=' + '+'.join(spec['patterns']) + (',holes' if spec.get('holes') else ''))
+    ctx.count('large:ids=' + spec['ids'])
+    for k in (3, 4):
+        if len(want[k]):
+            ctx.count(f'large:{SHAPES[k]}-faces={len(want[k])}')
+    ctx.count(f'large:nodes={n}')
+    by_id = np.argsort(ids)
+
+    def to_pos(a):
+        return by_id[np.searchsorted(ids[by_id], np.asarray(a, dtype=np.int64))]
+
+    def faces_fail(sig, what, rows_by_shape, extra=None):
+        """rows of node ids per shape vs the expected boundary faces (orientation included)"""
+        for k in (3, 4):
+            d = rows_diff(canon_rows(rows_by_shape.get(k, np.zeros((0, k)))), want[k])
+            if d is not None:
+                ctx.fail(sig, what, case, {'shape': SHAPES[k], **d, **(extra or {})})
+                return True
+        return False
+
+    snap = (ids.copy(), xyz.copy(), {t: (e.copy(), c.copy()) for t, (e, c) in L['blocks'].items()})
+
+    def build():
+        U.stage('FEMData(nodes, elements)')
+        U.clear_caches()
+        el = {t: FEMAttribute(t, ids=e, data=c, silent=True) for t, (e, c) in L['blocks'].items()}
+        return G.quiet(lambda: FEMData(nodes=FEMAttribute('NODE', ids=ids, data=xyz, silent=True),
+                                       elements=FEMElementalAttribute('ELEMENT', G.insertion_order(el))))
+    fd = U.guarded(ctx, case, key, build)
+    if fd is None:
+        return
+
+    # extract_surface(): exactly the boundary faces, outward (node order), closed, positions, enclosed volume
+    def op_surface():
+        U.stage('extract_surface()')
+        return G.quiet(fd.extract_surface)
+    got = U.guarded(ctx, case, key, op_surface)
+    sidx = None
+    if got is not None:
+        sidx, spos = parts_np(got[0]), parts_np(got[1])
+        bad_index = any(len(a) and (a.min() < 0 or a.max() >= n) for a in sidx.values())
+        if bad_index:
+            ctx.fail('surface:not-the-once-only-faces', 'extract_surface() returns a node index outside 0..n-1', case, None)
+            sidx = None
+        elif not faces_fail('surface:not-the-once-only-faces', 'extract_surface() is not the set of faces used by exactly one '
+                            'element, oriented outwards (large mesh; expectation from the cell occupancy)',
+                            {k: ids[a] for k, a in sidx.items()}):
+            for k in (3, 4):
+                if not np.array_equal(np.asarray(spos[k], dtype=float).reshape(-1, k, 3), xyz[sidx[k]]):
+                    ctx.fail('surface:positions', 'the positions returned by extract_surface() are not the coordinates of the '
+                             'nodes of its faces', case, {'shape': SHAPES[k]})
+                    break
+        if sidx is not None:
+            e = np.concatenate([np.stack([a, np.roll(a, -1, axis=1)], axis=2).reshape(-1, 2) for a in sidx.values() if len(a)])
+            fw, bw = np.sort(e[:, 0] * n + e[:, 1]), np.sort(e[:, 1] * n + e[:, 0])
+            if not np.array_equal(fw, bw):
+                ctx.fail('surface:not-closed', 'a directed edge of the extracted surface is not matched by its reverse', case,
+                         {'n_unmatched': int(len(np.setdiff1d(fw, bw)))})
+            fl = [flux_np(xyz[a]) for a in sidx.values()]
+            enclosed, mag = sum(f[0] for f in fl), sum(f[1] for f in fl)
+
+            def op_vol():
+                U.stage('calculate_element_volumes()')
+                return float(G.quiet(fd.calculate_element_volumes, mode='linear', raise_negative_volume=False).sum())
+            tot = U.guarded(ctx, case, key, op_vol)
+            tol = 1e-9 * (mag + abs(L['volume']))
+            for name, v in (('exact sum of the element volumes (cells x det A)', L['volume']),
+                            ('calculate_element_volumes(mode="linear")', tot)):
+                if v is not None and not abs(enclosed - v) <= tol:
+                    ctx.fail('surface:volume-mismatch', 'volume enclosed by the surface differs from the sum of the element '
+                             f'volumes: {name}', case, {'enclosed': enclosed, 'sum_volumes': v, 'tolerance': tol, 'mode': 'large'})
+                    break
+
+    # to_surface() with and without the unnecessary nodes
+    for opt, label in ((True, 'to_surface'), (False, 'to_surface-keep-nodes')):
+        def op_to():
+            U.stage('to_surface()' if opt else 'to_surface(remove_unnecessary_nodes=False)')
+            return G.quiet(fd.to_surface) if opt else G.quiet(fd.to_surface, remove_unnecessary_nodes=False)
+        sfd = U.guarded(ctx, case, key, op_to)
+        if sfd is None:
+            continue
+        rows = {}
+        for t, a in sfd.elements.items():
+            rows[{'tri': 3, 'quad': 4}.get(t, 0)] = np.asarray(a.data)
+        if 0 in rows:
+            ctx.fail('same-faces:' + label, 'the surface object has element types other than tri / quad', case,
+                     {'types': list(sfd.elements.keys())})
+        elif faces_fail('same-faces:' + label, f'the elements of the surface object ({U.STAGE[0]}) are not the boundary faces', rows):
+            pass
+        else:
+            sn = np.asarray(sfd.nodes.ids)
+            if opt:
+                on = np.zeros(n, dtype=bool)
+                for k in (3, 4):
+                    if len(want[k]):
+                        on[to_pos(want[k].ravel())] = True
+                exp_ids, exp_xyz = ids[on], xyz[on]
+            else:
+                exp_ids, exp_xyz = ids, xyz
+            if not np.array_equal(sn, exp_ids):
+                ctx.fail('same-faces:' + ('to_surface-nodes' if opt else 'to_surface-keep-nodes'),
+                         f'the nodes of {U.STAGE[0]} are not the ' + ('surface nodes' if opt else 'nodes of the mesh') + ' in storage '
+                         'order', case, {'n': len(sn), 'expected': len(exp_ids)})
+            elif not np.array_equal(np.asarray(sfd.nodes.data, dtype=float), exp_xyz):
+                ctx.fail('same-faces:to_surface-node-coordinates', f'the nodes of {U.STAGE[0]} do not have the coordinates of the mesh '
+                         'nodes', case, None)
+
+    # (element, face number) list of a pure tet / tet2 mesh
+    if len(L['blocks']) == 1 and set(L['blocks']) <= {'tet', 'tet2'}:
+        def op_fistr():
+            U.stage('extract_surface_fistr()')
+            return np.asarray(G.quiet(fd.extract_surface_fistr))
+        fr = U.guarded(ctx, case, key, op_fistr)
+        if fr is not None:
+            eid, c = next(iter(L['blocks'].values()))
+            o = np.argsort(eid)
+            j = np.searchsorted(eid[o], fr[:, 0])
+            ok = (j < len(eid)) & (fr[:, 1] >= 1) & (fr[:, 1] <= 4)
+            ok[ok] &= eid[o][j[ok]] == fr[ok, 0]
+            if not ok.all():
+                ctx.fail('same-faces:fistr', 'extract_surface_fistr() names an element / face number that does not exist', case,
+                         {'rows': fr[~ok][:5].tolist()})
+            else:
+                tab = np.array(FISTR_FACES)[fr[:, 1] - 1]
+                keys = np.sort(np.take_along_axis(c[o][j][:, :4], tab, axis=1), axis=1)
+                wk = np.sort(want[3], axis=1)
+                d = rows_diff(keys[np.lexsort(keys.T[::-1])], wk[np.lexsort(wk.T[::-1])])
+                if d is not None:
+                    ctx.fail('same-faces:fistr', 'extract_surface_fistr() (element, face number) rows describe another face set',
+                             case, d)
+
+    # OBJ export (twice: new file, then the existing file rewritten with overwrite=True), independent parser, read back
+    path = str(ctx.tmp / 'large.obj')
+    if os.path.exists(path):
+        os.remove(path)
+    texts = []
+    for again in (False, True):
+        def op_write():
+            U.stage("write('obj')" + (' (existing file, overwrite=True)' if again else ''))
+            G.quiet(fd.write, 'obj', path, **({'overwrite': True} if again else {}))
+            return open(path).read()
+        text = U.guarded(ctx, case, key, op_write)
+        if text is None:
+            break
+        texts.append(text)
+        if again:
+            if text != texts[0]:
+                a, b = texts[0].split('\n'), text.split('\n')
+                k = next((i for i, (u, v) in enumerate(zip(a, b)) if u != v), min(len(a), len(b)))
+                ctx.fail('history:write_obj:text', 'the .obj file written a second time by the same object (existing file, '
+                         'overwrite=True) differs from the first', case,
+                         {'n_lines': (len(a), len(b)), 'first_difference_at_line': k + 1, 'first': a[k:k + 1], 'second': b[k:k + 1]})
+            continue
+        vs, fs, bad = parse_obj(text)
+        if bad:
+            ctx.fail('same-faces:obj:malformed-record', 'the .obj file contains a line that is neither a `v x y z` nor a '
+                     '`f i j k [l]` record', case, {'lines': bad, 'n_v': len(vs), 'n_f': len(fs)})
+        if len(vs) != n or not np.array_equal(np.array(vs, dtype=float).reshape(-1, 3), xyz):
+            ctx.fail('obj:vertices-changed', 'the v records of the .obj file are not the nodes in storage order', case,
+                     {'n': (len(vs), n)})
+        rows = {k: np.array([f for f in fs if len(f) == k], dtype=np.int64).reshape(-1, k) for k in (3, 4)}
+        if any(len(a) and (a.min() < 1 or a.max() > n) for a in rows.values()):
+            ctx.fail('same-faces:obj', 'an f line of the .obj file refers to a vertex number outside 1..n', case, None)
+        else:
+            faces_fail('same-faces:obj', 'the f records of the .obj file are not the boundary faces (independent parser)',
+                       {k: ids[a - 1] for k, a in rows.items()}, {'n_f_records': len(fs)})
+
+        def op_read():
+            U.stage("read_files('obj')")
+            return G.quiet(femio.FEMData.read_files, 'obj', [path])
+        rd = U.guarded(ctx, case, key, op_read)
+        if rd is not None:
+            if not np.array_equal(np.asarray(rd.nodes.data, dtype=float), xyz) or \
+                    not np.array_equal(np.asarray(rd.nodes.ids), np.arange(1, n + 1)):
+                ctx.fail('obj:vertices-changed', 'vertices read back from the .obj file differ from the nodes', case,
+                         {'n': (len(rd.nodes.ids), n)})
+            types = list(rd.elements.keys())
+            back = {{'tri': 3, 'quad': 4}.get(t, 0): np.asarray(rd.elements[t].data).astype(np.int64) for t in types}
+            if 0 in back or (sidx is not None and any(
+                    not np.array_equal(back.get(k, np.zeros((0, k), dtype=np.int64)) - 1, sidx[k]) for k in (3, 4))):
+                ctx.fail('obj:faces-changed', 'faces read back from the .obj file differ from the extracted surface', case,
+                         {'types': types, 'n_read': {t: len(rd.elements[t].ids) for t in types},
+                          'n_surface': None if sidx is None else {SHAPES[k]: len(sidx[k]) for k in (3, 4)}})
+            elif sidx is None:
+                faces_fail('obj:faces-changed', 'faces read back from the .obj file are not the boundary faces',
+                           {k: ids[a - 1] for k, a in back.items()})
+
+    # no operation may have touched the caller's arrays or the user data of the object
+    pairs = [('node ids (caller\'s array)', snap[0], ids), ('coordinates (caller\'s array)', snap[1], xyz),
+             ('node ids', snap[0], np.asarray(fd.nodes.ids)), ('coordinates', snap[1], np.asarray(fd.nodes.data))]
+    for t, (e, c) in snap[2].items():
+        pairs += [(f'element ids (caller\'s array of {t})', e, L['blocks'][t][0]), (f'connectivity (caller\'s array of {t})', c, L['blocks'][t][1])]
+        if t in fd.elements:
+            pairs += [(f'element ids of {t}', e, np.asarray(fd.elements[t].ids)), (f'connectivity of {t}', c, np.asarray(fd.elements[t].data))]
+    for name, a, b in pairs:
+        if not (a.shape == np.shape(b) and np.array_equal(a, b)):
+            ctx.fail('history:large:modifies-the-object:' + name.split(' (')[0].split(' of ')[0],
+                     f'the operations on the large mesh changed the {name}', case, None)
+            break
 
 
 # ------------------------------------------------------------------ one case
@@ -1039,6 +1606,8 @@ def run(ctx):
                          per_op=not ctx.quick)
             else:
                 ctx.count('transform:rounding made an element invalid (skipped)')
+    for spec in large_schedule(ctx):
+        evaluate_large(ctx, spec)
     ctx.extra['p_tie'] = {'tolerance_centroid': U.TOL_CENTROID, 'tolerance_linear': U.TOL_LINEAR,
                           'scale': 'centroid: P^3, linear: D^3 (+ 64 eps P D^2), P = max|coordinate|, D = extent (referenced nodes)',
                           'points': 'rational grid, denominators <= 64, |p| <= ~20; scale / offset stream: the float64 '
@@ -1047,6 +1616,11 @@ def run(ctx):
 
 def replay(ctx, obj):
     inp = obj['input'] if 'input' in obj else obj
+    if inp.get('large'):
+        n0 = len(ctx.failures)
+        evaluate_large(ctx, inp['large'])
+        return {'describe': inp.get('describe'), 'large': inp['large'], 'fails': len(ctx.failures) > n0,
+                'failures': [{'signature': f['signature'], 'what': f['what'], 'observed': f['observed']} for f in ctx.failures[n0:]]}
     m = G.from_json(inp['mesh'])
     if inp.get('transform'):
         m['transform'] = inp['transform']
